@@ -139,46 +139,45 @@ def IntBound (o : Option NumB) : Prop := ∀ b, o = some b → ∃ i : Int, b.v 
 /-- the integer kinds whose own rule group is the one the generator reads and whose JSON form is a number. -/
 def NumberJsonInt (nk : NKind) (i64n : Bool) : Prop := nk = .int32 ∨ (nk = .int64 ∧ i64n = true)
 
-set_option maxHeartbeats 2000000 in
+/-- an integer bound is absent, or the document shows it as the same integer. -/
+theorem intBound_norm {nk : NKind} {i64n : Bool} (hk : NumberJsonInt nk i64n) {o : Option NumB} (h : IntBound o) :
+    o = none ∨ ∃ b i, o = some b ∧ Impl.boundJson nk b = .num (.int i) ∧ b.v = .int i := by
+  cases o with
+  | none => exact Or.inl rfl
+  | some b =>
+    obtain ⟨i, hv, hi⟩ := h b rfl
+    refine Or.inr ⟨b, i, rfl, ?_, hv⟩
+    rcases hk with rfl | ⟨rfl, rfl⟩ <;> simp [Impl.boundJson, hv, toF64_small _ hi]
+
+set_option maxHeartbeats 8000000 in
 theorem int_rules_iff (nk : NKind) (i64n : Bool) (hk : NumberJsonInt nk i64n) (c : FCard) (hc : c.isScalar = true)
-    (r : FieldRules) (hg : r.group = nk) (hgt : r.gt = none) (hlt : r.lt = none)
-    (hgte : IntBound r.gte) (hlte : IntBound r.lte) (i : Int) (fuel : Nat) :
+    (r : FieldRules) (hg : r.group = nk)
+    (hgt : IntBound r.gt) (hgte : IntBound r.gte) (hlt : IntBound r.lt) (hlte : IntBound r.lte) (i : Int) (fuel : Nat) :
     accepts [] (fuel + 1) (Impl.fieldSchema (.num nk) c i64n r) (jsonForm (.num nk) i64n (.one (.num (.int i))))
       = Spec.satisfies (.num nk) c r (.one (.num (.int i))) := by
   rw [accepts_scalar_core _ _ _ _ hc]
   obtain ⟨req, minLen, maxLen, pat, strIn, strConst, fmt, group, gt, gte, lt, lte, numIn, numConst, minItems, maxItems, unique, minPairs, maxPairs⟩ := r
   simp only at hg hgt hlt hgte hlte
-  subst hg hgt hlt
+  subst hg
   have hj : jsonForm (.num group) i64n (.one (.num (.int i))) = .num (.int i) := by
     rcases hk with rfl | ⟨rfl, rfl⟩ <;> simp [jsonForm, jsonScalar, NKind.is64]
   have hb : Impl.baseCore (.num group) i64n = [(K.type, .str T.integer)] := by
     rcases hk with rfl | ⟨rfl, rfl⟩ <;> simp [Impl.baseCore]
   have hget : Impl.getter group = group := by
     rcases hk with rfl | ⟨rfl, rfl⟩ <;> rfl
-  have hnf : ∀ b : NumB, ∀ lo : Int, b.v = .int lo → lo.natAbs ≤ 2 ^ 53 → Impl.boundJson group b = .num (.int lo) := by
-    intro b lo hv hlo
-    rcases hk with rfl | ⟨rfl, rfl⟩ <;> simp [Impl.boundJson, hv, toF64_small _ hlo]
+  have n1 := intBound_norm hk hgte
+  have n2 := intBound_norm hk hgt
+  have n3 := intBound_norm hk hlte
+  have n4 := intBound_norm hk hlt
   rw [hj, hb]
   simp only [Impl.scalarCore, hc, if_true, hget, Impl.numericKws, Spec.satisfies, Spec.scalarOk, Spec.numOk, Spec.optB,
-    Option.isSome_none, Bool.false_eq_true, if_false, List.append_nil, Bool.true_and]
-  cases gte with
-  | none =>
-    cases lte with
-    | none => cases numConst <;> cases numIn <;>
-        simp [accepts, decBoundsOk, decBound, Impl.optKw, any_beq_num, any_comp_beq_num, Json.beq, Bool.and_comm, Bool.and_left_comm, Bool.and_assoc]
-    | some hi =>
-      obtain ⟨h, hv, hh⟩ := hlte hi rfl
-      cases numConst <;> cases numIn <;>
-        simp [accepts, decBoundsOk, decBound, Impl.optKw, any_beq_num, any_comp_beq_num, Json.beq, Bool.and_comm, Bool.and_left_comm, Bool.and_assoc, hnf hi h hv hh, hv, dle_int, Dcm.ofJNum, Dcm.le]
-  | some lo =>
-    obtain ⟨l, lv, lh⟩ := hgte lo rfl
-    cases lte with
-    | none => cases numConst <;> cases numIn <;>
-        simp [accepts, decBoundsOk, decBound, Impl.optKw, any_beq_num, any_comp_beq_num, Json.beq, Bool.and_comm, Bool.and_left_comm, Bool.and_assoc, hnf lo l lv lh, lv, dle_int, Dcm.ofJNum, Dcm.le]
-    | some hi =>
-      obtain ⟨h, hv, hh⟩ := hlte hi rfl
-      cases numConst <;> cases numIn <;>
-        simp [accepts, decBoundsOk, decBound, Impl.optKw, any_beq_num, any_comp_beq_num, Json.beq, Bool.and_comm, Bool.and_left_comm, Bool.and_assoc, hnf lo l lv lh, lv, hnf hi h hv hh, hv, dle_int, Dcm.ofJNum, Dcm.le]
+    Bool.true_and]
+  clear hj hb hget hk hgt hgte hlt hlte hc
+  rcases n1 with rfl | ⟨b1, i1, rfl, j1, v1⟩ <;> rcases n2 with rfl | ⟨b2, i2, rfl, j2, v2⟩ <;>
+  rcases n3 with rfl | ⟨b3, i3, rfl, j3, v3⟩ <;> rcases n4 with rfl | ⟨b4, i4, rfl, j4, v4⟩ <;>
+  cases numConst <;> cases numIn <;>
+  simp [accepts, decBoundsOk, decBound, Impl.optKw, any_comp_beq_num, Json.beq, Bool.and_comm, Bool.and_left_comm,
+    Bool.and_assoc, dle_int, dlt_int, Dcm.ofJNum, Dcm.le, Dcm.lt, *]
 
 /-- the document shows the scalar as the same string. -/
 def staysString (v : Str) : Bool := match yamlScalar v with | .str w => w == v | _ => false
@@ -404,57 +403,71 @@ theorem jsonForm_float (nk : NKind) (hk : nk = .float ∨ nk = .double) (i64n : 
     jsonForm (.num nk) i64n (.one (.num x)) = .num x := by
   rcases hk with rfl | rfl <;> cases x <;> simp [jsonForm, jsonScalar, NKind.is64]
 
-set_option maxHeartbeats 4000000 in
+/-- a float / double bound is absent, or an integer, or a decimal token that parses; the
+document shows it unchanged. -/
+theorem floatBound_norm {nk : NKind} (hk : nk = .float ∨ nk = .double) {o : Option NumB}
+    (hp : BoundParses o) (hw : nk = .float → WideExact o) :
+    o = none ∨ (∃ w i, o = some ⟨.int i, w⟩ ∧ Impl.boundJson nk ⟨.int i, w⟩ = .num (.int i)) ∨
+    (∃ w t d, o = some ⟨.float t, w⟩ ∧ Impl.boundJson nk ⟨.float t, w⟩ = .num (.float t) ∧ Dcm.parse t = some d) := by
+  cases o with
+  | none => exact Or.inl rfl
+  | some b =>
+    obtain ⟨v, w⟩ := b
+    have hbj : Impl.boundJson nk ⟨v, w⟩ = .num v := by
+      rcases hk with rfl | rfl
+      · have := hw rfl ⟨v, w⟩ rfl
+        simp only at this
+        simp [Impl.boundJson, this]
+      · simp [Impl.boundJson]
+    obtain ⟨d, hd⟩ := hp ⟨v, w⟩ rfl
+    cases v with
+    | int i => exact Or.inr (Or.inl ⟨w, i, rfl, hbj⟩)
+    | float tok => exact Or.inr (Or.inr ⟨w, tok, d, rfl, hbj, by simpa [Dcm.ofJNum] using hd⟩)
+
+set_option maxHeartbeats 16000000 in
 theorem float_bounds_iff (nk : NKind) (hk : nk = .float ∨ nk = .double) (i64n : Bool) (c : FCard) (hc : c.isScalar = true)
-    (r : FieldRules) (hg : r.group = nk) (hgt : r.gt = none) (hlt : r.lt = none)
+    (r : FieldRules) (hg : r.group = nk)
     (hin : r.numIn = []) (hconst : r.numConst = none)
-    (hgte : BoundParses r.gte) (hlte : BoundParses r.lte)
-    (hwl : nk = .float → WideExact r.gte) (hwh : nk = .float → WideExact r.lte)
+    (hgt : BoundParses r.gt) (hgte : BoundParses r.gte) (hlt : BoundParses r.lt) (hlte : BoundParses r.lte)
+    (hw : nk = .float → WideExact r.gt ∧ WideExact r.gte ∧ WideExact r.lt ∧ WideExact r.lte)
     (x : JNum) (hx : Parses x) (fuel : Nat) :
     accepts [] (fuel + 1) (Impl.fieldSchema (.num nk) c i64n r) (jsonForm (.num nk) i64n (.one (.num x)))
       = Spec.satisfies (.num nk) c r (.one (.num x)) := by
   rw [accepts_scalar_core _ _ _ _ hc, jsonForm_float nk hk]
   obtain ⟨req, minLen, maxLen, pat, strIn, strConst, fmt, group, gt, gte, lt, lte, numIn, numConst, minItems, maxItems, unique, minPairs, maxPairs⟩ := r
-  simp only at hg hgt hlt hin hconst hgte hlte hwl hwh
-  subst hg hgt hlt hin hconst
+  simp only at hg hgt hlt hin hconst hgte hlte hw
+  subst hg hin hconst
   have hb : Impl.baseCore (.num group) i64n = [(K.type, .str T.number)] := by
     rcases hk with rfl | rfl <;> simp [Impl.baseCore]
   have hget : Impl.getter group = group := by
     rcases hk with rfl | rfl <;> rfl
-  have hbj : ∀ o : Option NumB, (group = .float → WideExact o) → o.map (Impl.boundJson group) = o.map (fun b => Json.num b.v) := by
-    intro o hw
-    cases o with
-    | none => rfl
-    | some b =>
-      rcases hk with rfl | rfl
-      · simp [Impl.boundJson, hw rfl b rfl]
-      · simp [Impl.boundJson]
+  have n1 := floatBound_norm hk hgte (fun h => (hw h).2.1)
+  have n2 := floatBound_norm hk hgt (fun h => (hw h).1)
+  have n3 := floatBound_norm hk hlte (fun h => (hw h).2.2.2)
+  have n4 := floatBound_norm hk hlt (fun h => (hw h).2.2.1)
   rw [hb]
   simp only [Impl.scalarCore, hc, if_true, hget, Impl.numericKws, Spec.satisfies, Spec.scalarOk, Spec.numOk, Spec.optB,
-    Option.isSome_none, Bool.false_eq_true, if_false, List.append_nil, Bool.true_and, hbj gte hwl, hbj lte hwh,
-    List.isEmpty_nil, Option.map_none, Impl.optKw, Bool.or_true, Bool.and_true]
+    Bool.true_and, List.isEmpty_nil, Option.map_none, Impl.optKw, Bool.or_true, Bool.and_true, List.append_nil]
   obtain ⟨dx, hdx⟩ := hx
-  cases gte with
-  | none =>
-    cases lte with
-    | none => cases x <;> simp [accepts, decBoundsOk, decBound, Impl.optKw]
-    | some hi =>
-      obtain ⟨dh, hdh⟩ := hlte hi rfl
-      obtain ⟨hv, hw⟩ := hi
-      cases hv <;> cases x <;>
-        (simp_all [accepts, decBoundsOk, decBound, Impl.optKw, dle, Dcm.ofJNum, Dcm.le] <;> (try (subst_vars; simp_all)))
-  | some lo =>
-    obtain ⟨dl, hdl⟩ := hgte lo rfl
-    obtain ⟨lv, lw⟩ := lo
-    cases lte with
-    | none =>
-      cases lv <;> cases x <;>
-        (simp_all [accepts, decBoundsOk, decBound, Impl.optKw, dle, Dcm.ofJNum, Dcm.le] <;> (try (subst_vars; simp_all)))
-    | some hi =>
-      obtain ⟨dh, hdh⟩ := hlte hi rfl
-      obtain ⟨hv, hw⟩ := hi
-      cases lv <;> cases hv <;> cases x <;>
-        (simp_all [accepts, decBoundsOk, decBound, Impl.optKw, dle, Dcm.ofJNum, Dcm.le] <;> (try (subst_vars; simp_all)))
+  clear hb hget hk hgt hgte hlt hlte hw hc
+  cases x with
+  | int xi =>
+    clear hdx
+    rcases n1 with rfl | ⟨w1, i1, rfl, j1⟩ | ⟨w1, t1, d1, rfl, j1, p1⟩ <;>
+    rcases n2 with rfl | ⟨w2, i2, rfl, j2⟩ | ⟨w2, t2, d2, rfl, j2, p2⟩ <;>
+    rcases n3 with rfl | ⟨w3, i3, rfl, j3⟩ | ⟨w3, t3, d3, rfl, j3, p3⟩ <;>
+    rcases n4 with rfl | ⟨w4, i4, rfl, j4⟩ | ⟨w4, t4, d4, rfl, j4, p4⟩ <;>
+    simp [accepts, decBoundsOk, decBound, Impl.optKw, dle, dlt, Dcm.ofJNum, Dcm.le, Dcm.lt, Bool.and_comm,
+      Bool.and_left_comm, Bool.and_assoc, *]
+  | float xt =>
+    have px : Dcm.parse xt = some dx := by simpa [Dcm.ofJNum] using hdx
+    clear hdx
+    rcases n1 with rfl | ⟨w1, i1, rfl, j1⟩ | ⟨w1, t1, d1, rfl, j1, p1⟩ <;>
+    rcases n2 with rfl | ⟨w2, i2, rfl, j2⟩ | ⟨w2, t2, d2, rfl, j2, p2⟩ <;>
+    rcases n3 with rfl | ⟨w3, i3, rfl, j3⟩ | ⟨w3, t3, d3, rfl, j3, p3⟩ <;>
+    rcases n4 with rfl | ⟨w4, i4, rfl, j4⟩ | ⟨w4, t4, d4, rfl, j4, p4⟩ <;>
+    simp [accepts, decBoundsOk, decBound, Impl.optKw, dle, dlt, Dcm.ofJNum, Dcm.le, Dcm.lt, Bool.and_comm,
+      Bool.and_left_comm, Bool.and_assoc, *]
 
 theorem float_in_const_iff (nk : NKind) (hk : nk = .float ∨ nk = .double) (i64n : Bool) (c : FCard) (hc : c.isScalar = true)
     (r : FieldRules) (hg : r.group = nk) (hgt : r.gt = none) (hlt : r.lt = none) (hgte : r.gte = none) (hlte : r.lte = none)
